@@ -147,6 +147,8 @@ func alphabet(reduced bool) []Op {
 		{"name": "zz", "owner": "helm"},
 		{"name": "b", "owner": "other"},
 		{"owner": "helm"},
+		{"owner": "helm", "version": "1"}, // a revision number without a name: one match per release name
+		{"version": "1", "status": "deployed"},
 	}
 	if !reduced {
 		ops = append(ops, Op{Kind: "list", Filter: "name-a"})
